@@ -150,6 +150,11 @@ class Ex:
     def assume(self, t):
         if self.guard:
             t = z3.Implies(z3.And(self.guard), t)
+        seen = self.__dict__.setdefault("_pc_ids", {})     # id -> term (keeps the term alive: ids are reused otherwise)
+        i = t.get_id()
+        if i in seen and not getattr(self, "binder_depth", 0) and not getattr(self, "pure_depth", 0):
+            return
+        seen[i] = t
         self.pc.append(t)
 
     def oblige(self, kind, label, goal, tags=(), loc="", text="", site=""):
@@ -160,7 +165,10 @@ class Ex:
     def assume_type(self, v):
         ty = v.ty
         if ty.kind in ("ref",) and ty.cls and ty.cls in src.CLASSES and v.t is not None:
-            self.assume(z3.Or(v.t == 0, z3.And(self.alloc[v.t], is_instance(v.t, ty.cls))))
+            if ty.exact:
+                self.assume(z3.Or(v.t == 0, z3.And(self.alloc[v.t], typeof(v.t) == class_id(ty.cls))))
+            else:
+                self.assume(z3.Or(v.t == 0, z3.And(self.alloc[v.t], is_instance(v.t, ty.cls))))
         elif ty.is_heap and v.t is not None:
             self.assume(z3.Or(v.t == 0, self.alloc[v.t]))
             if ty.kind in ("list",):
@@ -175,6 +183,7 @@ class Ex:
         key = (field, sort_key(sort))
         if key not in self.heap:
             self.heap[key] = z3.Array(f"H_{field}_{sort_key(sort).replace(' ', '_').replace('(', '').replace(')', '')}", REF, sort)
+            self.__dict__.setdefault("_init_ids", {})[key] = self.heap[key].get_id()
         return self.heap[key]
 
     def hset(self, field, sort, m):
@@ -214,6 +223,18 @@ class Ex:
     def snapshot(self):
         return (dict(self.heap), self.alloc)
 
+    def stamp(self):
+        """a ground term naming the current heap (same heap content -> same stamp)"""
+        key = tuple(sorted((k[0], k[1], m.get_id()) for k, m in self.heap.items())) + (self.alloc.get_id(),)
+        memo = self.__dict__.setdefault("_stamps", {})
+        self.__dict__.setdefault("_stamp_keepalive", []).append((list(self.heap.values()), self.alloc))
+        # maps that were created lazily but never written are the initial maps: ignore them in the key
+        init = self.__dict__.setdefault("_init_ids", {})
+        key = tuple(x for x in key if not (isinstance(x, tuple) and init.get((x[0], x[1])) == x[2]))
+        if key not in memo:
+            memo[key] = z3.IntVal(len(memo) + 1)
+        return memo[key]
+
     # ---- coercions -----------------------------------------------------------------------
     def coerce(self, v, ty):
         ty = T(ty)
@@ -236,6 +257,13 @@ class Ex:
                 return Val(ty, smt.OINT.INone)
         if k == "int" and vk == "oint":
             return vint(smt.OINT.iv(v.t))
+        if k == "og":
+            if vk == "g":
+                return Val(ty, smt.OG.GSome(v.t))
+            if vk == "none":
+                return Val(ty, smt.OG.GNone)
+        if k == "g" and vk == "og":
+            return Val(ty, smt.OG.gv(v.t))
         if k == "int" and vk == "bool":
             return vint(z3.If(v.t, 1, 0))
         if ty.is_heap and vk == "none":
@@ -260,8 +288,12 @@ class Ex:
             return smt.fl_truthy(v.t)
         if k == "oint":
             return z3.And(smt.OINT.is_ISome(v.t), smt.OINT.iv(v.t) != 0)
+        if k == "og":
+            return smt.OG.is_GSome(v.t)
         if k == "none":
             return z3.BoolVal(False)
+        if k == "list" and v.t is None:
+            return v.meta["vlen"] > 0
         if k in ("list", "arr"):
             return z3.And(v.t != 0, self.hmap("$len", INT)[v.t] > 0)
         if k == "dict":
@@ -562,7 +594,7 @@ class Ex:
 
         def extra(fr):
             i = self.fresh(idx_name, INT)
-            fr.locals[idx_name] = vint(i)
+            fr.locals[idx_name] = Val(Ty("int"), i, meta=dict(nonneg=True))
             self.assume(i >= 0)
             self.assume(i <= n)
 
@@ -758,10 +790,14 @@ class Ex:
         if a.kind == "none":
             if b.kind == "int":
                 return Ty("oint")
+            if b.kind == "g":
+                return Ty("og")
             return b
         if b.kind == "none":
             if a.kind == "int":
                 return Ty("oint")
+            if a.kind == "g":
+                return Ty("og")
             return a
         if a.is_heap and b.is_heap:
             if a.kind == b.kind:
@@ -771,10 +807,13 @@ class Ex:
                             return Ty("ref", cls=c)
                     return Ty("ref")
                 return a if a.args else b
+            return Ty("ref")
         if {a.kind, b.kind} <= {"int", "fl", "bool"}:
             return Ty("fl") if "fl" in (a.kind, b.kind) else Ty("int")
         if {a.kind, b.kind} == {"int", "oint"}:
             return Ty("oint")
+        if {a.kind, b.kind} <= {"g", "og", "none"}:
+            return Ty("og")
         raise Unsupported(f"cannot join types {a} and {b}")
 
     def ev_Compare(self, e, fr):
@@ -861,6 +900,12 @@ class Ex:
         # method call on a value: keeps the receiver for dispatch
         if isinstance(f, ast.Attribute):
             recv = self.ev(f.value, fr)
+            if recv.ty.kind == "ref" and recv.ty.cls == "$Logger":
+                self.ev_args(e, fr)          # arguments are evaluated (they may touch caches); output dropped
+                return recv
+            if recv.ty.kind == "ref" and recv.ty.cls not in src.CLASSES and recv.ty.cls is not None:
+                args, kwargs = self.ev_args(e, fr)
+                return self.call_method(recv, f.attr, args, kwargs, fr, e)
             if recv.ty.kind == "ref" and recv.ty.cls in src.CLASSES:
                 fi = src.resolve_method(recv.ty.cls, f.attr)
                 has_any = fi is not None or any(src.resolve_method(sc, f.attr) for sc in src.subclasses(recv.ty.cls))
@@ -959,7 +1004,10 @@ class Ex:
     def call_method(self, recv, meth, args, kwargs, fr, node, static=False):
         cls = recv.ty.cls
         if cls not in src.CLASSES:
-            raise Unsupported(f"method {meth} on unknown class {cls}")
+            con = spec.CONTRACTS.get(f"ext.{cls}.{meth}")
+            if con is None:
+                raise Unsupported(f"method {meth} on external class {cls}: no contract ext.{cls}.{meth}")
+            return self.apply_contract(con, None, recv, args, kwargs, fr, node)
         cands = self.candidates(cls, meth)
         if not cands:
             raise Unsupported(f"no method {cls}.{meth}")
@@ -979,6 +1027,8 @@ class Ex:
             top = src.FUNCS.get(con.qual, top) if con is not None else top
         if con is None:
             raise Unsupported(f"dynamic dispatch on {cls}.{meth} needs an abstract contract ({top_q})")
+        if con.heapfn or con.value is not None:
+            return self.apply_pure(con, top, recv, args, kwargs, fr, node)
         return self.apply_contract(con, top, recv, args, kwargs, fr, node)
 
     def bind_params(self, fi, self_val, args, kwargs, fr, node):
@@ -1032,6 +1082,8 @@ class Ex:
 
     def call_function(self, fi, self_val, args, kwargs, fr, node, static=False, env=None):
         con = spec.CONTRACTS.get(fi.qual)
+        if con is not None and (con.heapfn or con.value is not None) and not con.inline:
+            return self.apply_pure(con, fi, self_val, args, kwargs, fr, node)
         if fr.spec:
             return self.spec_inline(fi, self_val, args, kwargs, fr, node, env)
         if con is not None and not con.inline:
@@ -1048,10 +1100,18 @@ class Ex:
         self.inlined.add(fi.qual)
         nfr = Frame(fi, bound, self_val, cls=fi.cls, contract=con, parent_env=env)
         nfr.depth = fr.depth + 1
+        stack = getattr(self, "self_stack", None)
+        pushed = False
+        if stack is not None and self_val is not None and self_val.ty.kind == "ref" and self_val.t is not None:
+            stack.append(self_val.t)
+            pushed = True
         try:
             self.exec_block(fi.node.body, nfr)
         except ReturnEx as r:
             return r.val
+        finally:
+            if pushed:
+                stack.pop()
         return vnone()
 
     def alias_params(self, fi, bound, con):
@@ -1161,6 +1221,11 @@ class Ex:
 
     def apply_contract(self, con, fi, self_val, args, kwargs, fr, node):
         from . import speceval
+        if self.under_binder(fr):
+            if getattr(self, "pure_depth", 0) > 0:
+                from .comps import Impure
+                raise Impure()
+            raise Unsupported(f"call of {con.qual} under a binder needs a `value=` or `heapfn` contract")
         if fi is not None:
             bound = self.bind_params(fi, self_val, args, kwargs, fr, node)
         else:
@@ -1215,6 +1280,69 @@ class Ex:
         cfr.result = res
         for c in con.ensures:
             self.assume(speceval.clause(self, c, cfr))
+        if not (con.pure and not con.modifies) and spec.INVARIANTS:
+            speceval.assume_invariants(self, fr.fi, exclude=getattr(self, "self_stack", []), tag="post")
+        return res
+
+    def under_binder(self, fr):
+        return bool(fr.bound) or getattr(self, "pure_depth", 0) > 0 or getattr(self, "binder_depth", 0) > 0
+
+    def apply_pure(self, con, fi, self_val, args, kwargs, fr, node):
+        """pure methods: closed-form `value`, or a function of (heap stamp, receiver, arguments) whose
+        defining axiom is the contract quantified over receivers (Dafny-style function encoding)"""
+        from . import speceval
+        bound = self.bind_params(fi, self_val, args, kwargs, fr, node)
+        self.alias_params(fi, bound, con)
+        self.coerce_params(fi, bound, con)
+        self.used_contracts.add(con.qual)
+        short = con.qual.split(".")[-2] + "." + con.qual.split(".")[-1]
+        cfr = Frame(fi, dict(bound), self_val, cls=fi.cls, contract=con)
+        cfr.spec = True
+        cfr.bound = dict(fr.bound)
+        cfr.old = fr.old
+        if not fr.spec and not self.under_binder(fr):
+            site = f"{short}@{self.site_id(short)}"
+            loc = src.loc(fr.fi, node) if fr.fi is not None else ""
+            for c in con.requires:
+                self.oblige("call-pre", c.label, speceval.clause(self, c, cfr), c.tags, loc, c.text, site=site)
+        if con.value is not None:
+            was = cfr.spec
+            v = self.ev(con.value_ast, cfr)
+            if con.returns is not None:
+                v = self.coerce(v, con.returns)
+            return v
+        # heap function
+        names = [k for k in bound if isinstance(bound[k], Val) and bound[k].t is not None and bound[k].ty.kind not in ("fn", "cls", "mod", "lambda")]
+        st = self.stamp()
+        sorts = [bound[k].ty.sort() for k in names]
+        fsym = z3.Function("FN_" + con.qual.replace(".", "_"), INT, *sorts, con.returns.sort())
+        done = self.__dict__.setdefault("_hf_done", set())
+        if (con.qual, st.as_long()) not in done:
+            done.add((con.qual, st.as_long()))
+            bvs = [z3.Const(f"{k}?{next(self.cnt)}", s_) for k, s_ in zip(names, sorts)]
+            qfr = Frame(fi, {k: Val(bound[k].ty, bv) for k, bv in zip(names, bvs)}, None, cls=fi.cls, contract=con)
+            if fi.kind in ("method", "property"):
+                qfr.self_val = qfr.locals[list(bound.keys())[0]]
+            qfr.spec = True
+            qfr.result = Val(con.returns, fsym(st, *bvs))
+            mark = len(self.pc)
+            self.binder_depth = getattr(self, "binder_depth", 0) + 1
+            try:
+                rq = [speceval.clause(self, c, qfr) for c in con.requires]
+                tyfacts = []
+                for k, bv in zip(names, bvs):
+                    ty = bound[k].ty
+                    if ty.kind == "ref" and ty.cls in src.CLASSES:
+                        tyfacts.append(z3.And(bv != 0, self.alloc[bv], is_instance(bv, ty.cls)))
+                en = [speceval.clause(self, c, qfr) for c in con.ensures]
+            finally:
+                self.binder_depth -= 1
+            extra = self.pc[mark:]
+            del self.pc[mark:]
+            self.pc.extend(x for x in extra if not speceval._mentions(x, bvs))
+            if en:
+                self.pc.append(z3.ForAll(bvs, z3.Implies(z3.And(tyfacts + rq), z3.And(en)), patterns=[fsym(st, *bvs)]))
+        res = Val(con.returns, fsym(st, *[bound[k].t for k in names]))
         return res
 
     # ---- comprehensions (see models) ---------------------------------------------------------
